@@ -21,9 +21,10 @@ def run(ctx):
     for lang in (("Python", "JavaScript", "Java", "C") if ctx.quick() else capture.LANG_NAMES):
         r = xh.call("soup.py", "_alphabet", {"lang": lang}, wall_timeout=120)
         alpha = [w for _t, w in r.get("value", [])]
-        # concrete-after-selection and untraced, so one condition per language covers all first tokens
-        jobs.append(Job("c06.py", "h_isolation", {"which": "isolation", "lang": lang, "N": N, "first": None}, T * 2, 60, tag=f"isolation {lang} N={N}", meta={"twin": True, "sigtag": f"isolation:{lang}"}))
-        jobs.append(Job("c06.py", "h_first_file", {"which": "isolation", "lang": lang, "N": N, "first": None}, T * 2, 60, tag=f"soup analysed first in the process {lang} N={N}", meta={"twin": False, "sigtag": f"first-file:{lang}"}))
+        # concrete-after-selection and untraced; one condition per class of the soup's first token so the 16 workers share the work
+        for k in range(len(alpha)):
+            jobs.append(Job("c06.py", "h_isolation", {"which": "isolation", "lang": lang, "N": N, "first": k}, T, 60, tag=f"isolation {lang} N={N} first={alpha[k]!r}", meta={"twin": k == 0, "sigtag": f"isolation:{lang}"}))
+            jobs.append(Job("c06.py", "h_first_file", {"which": "isolation", "lang": lang, "N": N, "first": k}, T, 60, tag=f"soup analysed first in the process {lang} N={N} first={alpha[k]!r}", meta={"twin": False, "sigtag": f"first-file:{lang}"}))
     for lang in capture.LANG_NAMES:
         r = xh.call("c15.py", "n_automata", {"lang": lang}, wall_timeout=120)
         for i, a in enumerate(r.get("value", [])):
@@ -47,7 +48,7 @@ def run(ctx):
     for n in ((2,) if ctx.quick() else (2, 3)):
         for e1 in range(7):
             jobs.append(Job("c06.py", "h_analyze_history", {"which": "history", "fix_n": n, "fix_e1": e1}, T * (1 if n == 2 else 2), 60, tag=f"file-level isolation, history of {n} files, first ext #{e1}", meta={"sigtag": "file-isolation", "twin": e1 == 0}))
-    ctx.bounds["file-level isolation"] = "Scanner._analyze_file on a file after every history of 1 (quick) / <= 2 (thorough) earlier files drawn from 7 extensions x 4 texts (same bytes under another language included) equals its stand-alone analysis"
+    ctx.bounds["file-level isolation"] = "Scanner._analyze_file on a file after every history of 1 (quick) / <= 2 (thorough) earlier files drawn from 7 extensions x 9 texts (same bytes under another language, CRLF, leading blanks, non-UTF-8 bytes and UTF-8 non-ASCII bytes included) equals its stand-alone analysis"
     for c in ((0, 2) if ctx.quick() else (0, 1, 2, 3)):
         for f3 in ((0, 2) if ctx.quick() else (0, 2, 5, 7)):
             jobs.append(Job("c11.py", "h_walk_order", {"cfg": c, "fix_f3": f3}, T, 60, tag=f"traversal order cfg{c} file#{f3}", meta={"sigtag": "walk-order", "twin": f3 == 0 and c == 0}))
